@@ -23,6 +23,11 @@ func init() {
 	register(&Scenario{Name: "group-traits", Prop: "C17", Faulty: true, Doc: "onoffpb.Group / lightpb.Group over 2-3 member devices (model servers behind a router, reached through the wrapped client) with every read strategy; a Pull through the group into a stream whose Send is slow and fails at a tape-chosen point or whose context is cancelled, while a writer changes the members; the Pull must return and leave no goroutine",
 		Run:  groupTraitsRun,
 		Real: []string{"pkg/trait/onoffpb Group, lightpb Group", "pkg/group", "model servers, routers, wrappers"}, Stub: []string{"server stream (slow / failing Send)", "writer and canceller tasks"}})
+	// the same workload judged for C10: a group subscription whose stream fails or is cancelled unwinds completely
+	// (the call returns, every goroutine started for it - members, forwarders, the streams to the members - ends)
+	register(&Scenario{Name: "shut-groups", Prop: "C10", Faulty: true, Doc: "the group-traits workload (onoffpb.Group / lightpb.Group Pulls whose stream fails or is cancelled at any moment while the members change) judged for shutdown: the Pull returns and nothing is left running",
+		Run:  groupTraitsRun,
+		Real: []string{"pkg/trait/onoffpb Group, lightpb Group", "pkg/group", "model servers, routers, wrappers"}, Stub: []string{"server stream (slow / failing Send)", "writer and canceller tasks"}})
 }
 
 // slowStream is the server side of the group's Pull: Send takes a scheduling step and fails from the failAt-th call on.
